@@ -196,7 +196,12 @@ theorem strRel_step (sep last : List Char) (vl : Rat) (pairs : List (List Char Ã
         obtain âŸ¨hc', hrâŸ© := hstep
         subst hc'; subst hr
         have hlt : pre.length < (sepJoin pairs last).length := by rw [htext]; simp; omega
-        simp only [StrIt.step, advance_mid sep _ _ _ hlt]
+        have hnl : NoLeadSpace ((sepJoin pairs last).drop (pre.length + t.length + 1)) := by
+          have e : sepJoin pairs last = (pre ++ t ++ [ch]) ++ sepJoin more last := by rw [htext]; simp
+          have l : pre.length + t.length + 1 = (pre ++ t ++ [ch]).length := by simp; omega
+          rw [e, l, List.drop_left]
+          exact sepJoin_noLead more last vs vl hv hl
+        simp only [StrIt.step, advance_mid sep _ _ _ hlt hnl]
         have htxt : sepJoin pairs last = (pre ++ t ++ [ch]) ++ sepJoin more last := by rw [htext]; simp
         have hpos : pre.length + t.length + 1 = (pre ++ t ++ [ch]).length := by simp; omega
         rw [hpos]
